@@ -371,6 +371,66 @@ class Evaluator:
         return cur.line()
 
 
+def wasm_corpus(ctx, ev):
+    """Layer (i) on the real modules of the repository: every function of every .wasm file that the
+    engine accepts, plain and metered (cost V1), must compile to the same bytes/registers/constants in
+    Compile.v and in Module::compile."""
+    files = []
+    for root, _, fs in os.walk(os.path.join(c.REPO, "smart-contracts")):
+        if "/target/" in root + "/":
+            pass
+        files += [os.path.join(root, f) for f in fs if f.endswith(".wasm")]
+    files.sort()
+    rc, out = c.run_bin(ev.binp, ["wasm"] + files, timeout=1800, env=HENV)
+    rows = [json.loads(l) for l in out.splitlines() if l.startswith("{")]
+    good = [r for r in rows if "out" in r]
+    reqs = []
+    for r in good:
+        t = ["CMPW", "T", str(len(r["types"]))]
+        for ty in r["types"]:
+            t += [str(len(ty["p"]))] + ty["p"] + [str(len(ty["r"]))] + ty["r"]
+        t += ["I", str(len(r["imports"]))] + [str(x) for x in r["imports"]]
+        t += ["F", str(len(r["funcs"]))]
+        for f in r["funcs"]:
+            ops = f["ops"].split()
+            t += [str(f["ty"]), str(len(f["locals"]))] + f["locals"] + [str(len(ops))] + ops
+        reqs.append(" ".join(t))
+    outs = []
+    if reqs:
+        pr = subprocess.run([ev.runner], input=("\n".join(reqs) + "\n").encode(), stdout=subprocess.PIPE, stderr=subprocess.STDOUT,
+                            timeout=1800, env=dict(os.environ, OCAMLRUNPARAM="l=4G"))
+        outs = pr.stdout.decode("utf-8", "replace").splitlines()
+    stats = {"files": len(files), "accepted_dumps": len(good), "functions_compared": 0,
+             "rejected": sorted({(os.path.basename(r["file"]), r["rejected"][:60]) for r in rows if "rejected" in r})[:12]}
+    if len(outs) != len(good):
+        ctx.violation({"layer": "(i) on the .wasm corpus", "lines": len(outs), "expected": len(good), "tail": outs[-1:]},
+                      "model runner failed on the .wasm corpus", no_input=True)
+        return stats
+    bad = 0
+    for r, o in zip(good, outs):
+        ms = o.split()
+        if o.startswith("ERR") or len(ms) != len(r["out"]):
+            bad += 1
+            if bad <= 3:
+                ctx.violation({"layer": "(i) compiler model vs Module::compile", "file": r["file"], "cfg": r["cfg"], "model": o[:300]},
+                              "compiler model failed on %s" % os.path.basename(r["file"]))
+            continue
+        for fi, (m, j) in enumerate(zip(ms, r["out"])):
+            code, regs, consts = m.split(":")
+            stats["functions_compared"] += 1
+            if code != j["code"] or int(regs) != j["regs"] or [x for x in consts.split(",") if x] != j["consts"]:
+                bad += 1
+                if bad <= 3:
+                    ctx.violation({"layer": "(i) compiler model vs Module::compile", "file": r["file"], "cfg": r["cfg"], "function": fi,
+                                   "ops": r["funcs"][fi]["ops"][:4000], "model": {"code": code, "regs": regs, "consts": consts}, "impl": j},
+                                  "compiled code of function %d of %s (%s) differs between Compile.v and Module::compile" % (
+                                      fi, os.path.basename(r["file"]), r["cfg"]))
+                break
+    stats["mismatching_functions_or_modules"] = bad
+    ctx.cov["evaluations"] += stats["functions_compared"]
+    return stats
+
+
 def cached_extract(ctx):
     """extract_build, skipped when the extracted closure and the driver are byte-identical to the
     ones the existing runner was built from (content hash stamp next to the runner)."""
@@ -611,6 +671,7 @@ def run(ctx):
         ctx.violation({"layer": "Coq proof obligations", "broken": proof_broken},
                       "theorem(s) of Props/C01.v no longer check (%s)" % proof_broken.get("failed_file"), no_input=not ctx.violations)
     if ctx.tier == "thorough":
+        ctx.notes["wasm_corpus_layer_i"] = wasm_corpus(ctx, ev)
         ok, out = c.coqchk(ctx)
         if not ok:
             ctx.violation({"layer": "coqchk", "output": out[-2000:]}, "coqchk rejected Props/C01.vo", no_input=True)
